@@ -9,9 +9,11 @@
    announce_msgs s a = the three announcements at a, a+225, a+450; goodbye_msgs G g1 g2 g3; fate_ok = delays within 0..100;
    losses = number of messages of which no copy arrives; arrival_ok = a decoded datagram that is an announcement of s, a goodbye of s
    or unrelated to it; svc_ok = TTLs in range (0 < other_ttl < 2^32). *)
+From Coq Require Import Permutation.
 From ZC Require Import Model.Base Model.PyRec Model.Dict Model.Cache Model.Ingest Model.Respond Model.Register Model.Node Model.Link
   Model.Query Model.Info Gen.Const Gen.DnsPure Spec.CacheSpec Spec.AnswerSpec
-  Model.Sched Model.Browser Proofs.C04_defs Proofs.C07_recv Proofs.C07_send Proofs.C07_net Proofs.C07_lookup Proofs.C07_link Proofs.C07_browser.
+  Model.Sched Model.Browser Proofs.C04_defs Proofs.C07_recv Proofs.C07_send Proofs.C07_net Proofs.C07_lookup Proofs.C07_link Proofs.C07_browser
+  Model.Route Model.WireEnc Proofs.C11_lemmas Proofs.C11_route Proofs.C18_info Proofs.C07_r1 Proofs.C07_r2 Proofs.C07_r3 Proofs.C07_resolve.
 
 (* of three copies with at most one lost, two arrive - each within 100 ms of being sent *)
 Theorem C07_one_loss_two_arrive : forall m1 m2 m3 f1 f2 f3, fate_ok f1 -> fate_ok f2 -> fate_ok f3 -> (losses [f1; f2; f3] <= 1)%nat ->
@@ -90,6 +92,37 @@ Theorem C07_goodbye_to_callbacks : forall nd id nd' id' types sch s a g b fates,
                 ~ In (lower (s_name s)) (live_after cbs (s_type s)).
 Proof. exact goodbye_task_to_callbacks. Qed.
 
+(* THE LOOKUP, END TO END (lossless case): a lookup started with an empty cache asks SRV, TXT, A, AAAA by QU; a node on which the service is
+   registered (no service using the instance name as host name; SRV and TXT equally recent on the wire, so that they travel in one
+   message) answers with one message - unicast when the records were multicast recently, multicast otherwise - and feeding that message's
+   records, stamped with their arrival time, in ANY order to the pending lookup makes it return True with the advertised host, port, TXT,
+   weight, priority and exactly the advertised addresses (vocabulary: Proofs/C07_r1..r3: recent = multicast within a quarter of the TTL,
+   addr_lengths = v4 addresses 4 bytes, v6 addresses 16 bytes, cached_v4/v6 = live addresses of the host already in the querier's cache) *)
+Theorem C07_lookup_end_to_end : forall n s name t0 timeout rnd now id addr rq rd t1 news c1 c h t2 rnd2,
+  0 < timeout ->
+  RegInv (n_reg n) -> n_done n = false -> In s (registered (n_reg n)) -> lower name = s_key s -> no_host_named_like (n_reg n) s ->
+  recent (n_cache n) now (dns_service s) = recent (n_cache n) now (dns_text s) ->
+  0 < s_host_ttl s -> 0 < s_other_ttl s -> addr_lengths s -> s_v4 s ++ s_v6 s <> [] ->
+  (forall a, In a (cached_v4 c1 t1 s) -> In a (s_v4 s)) -> (forall a, In a (cached_v6 c1 t1 s) -> In a (s_v6 s)) ->
+  let r0 := fst (fst (request_start empty_cache [] name t0 timeout rnd None)) in
+  exists dest m,
+    snd (request_start empty_cache [] name t0 timeout rnd None) = [RSend t0 true (first_query name t0)] /\
+    snd (nstep n (LQuery now [lookup_qmsg name now] id addr C_MDNS_PORT rq rd)) = [OSend now dest m] /\
+    (dest = if recent (n_cache n) now (dns_service s) then Some (addr, C_MDNS_PORT) else None) /\
+    (Permutation news (map (stamp t1) (reply_records m)) ->
+     let r1 := fst (request_update c1 t1 r0 news) in
+     let i := rq_info r1 in
+     loop_turn c h r1 t2 rnd2 = (set_done r1 (Some true), h, [RReturn t2 true]) /\
+     si_server i = Some (s_server s) /\ si_port i = Some (s_port s) /\ si_text i = s_text s /\
+     si_weight i = s_weight s /\ si_priority i = s_priority s /\
+     (forall a, In a (si_v4 i) <-> In a (s_v4 s)) /\ (forall a, In a (si_v6 i) <-> In a (s_v6 s))).
+Proof. exact lookup_end_to_end. Qed.
+
+(* when SRV and TXT are not equally recent the reply is split into a unicast and a multicast message; the lookup is complete as soon as it
+   has an address: if the SRV message arrives alone first and the coroutine runs before the TXT message, it returns with an empty TXT *)
+Check lookup_split_srv_then_txt.
+Check lookup_split_txt_then_srv.
+
 (* the recorded finding C07-withdrawal-during-broadcast as a refutation of the statement without the no-overlap hypothesis: unregistered
    50 ms after the first announcement, one copy lost, every other hypothesis met - the instance stays known for its whole TTL *)
 Example C07_overlap_refuted :
@@ -109,4 +142,5 @@ Proof. exact packet_order_fails. Qed.
 Print Assumptions C07_one_loss_two_arrive. Print Assumptions C07_last_arrival_wins. Print Assumptions C07_sender.
 Print Assumptions C07_announcements_converge. Print Assumptions C07_withdrawal_converges. Print Assumptions C07_close_converges.
 Print Assumptions C07_receiver_hypothesis_reachable. Print Assumptions C07_lookup_batch_order. Print Assumptions C07_overlap_refuted.
-Print Assumptions C07_packet_order_refuted. Print Assumptions C07_announcement_to_callbacks. Print Assumptions C07_goodbye_to_callbacks.
+Print Assumptions C07_packet_order_refuted. Print Assumptions C07_announcement_to_callbacks. Print Assumptions C07_goodbye_to_callbacks. Print Assumptions C07_lookup_end_to_end.
+Print Assumptions lookup_split_srv_then_txt. Print Assumptions lookup_split_txt_then_srv.
